@@ -173,6 +173,7 @@ func checkC15() fw.Check {
 					proto, qe := proto, qe
 					cases = append(cases, fw.Case{ID: fmt.Sprintf("C15/http/%s/q%d-e%d", proto, qe[0], qe[1]), Bubble: true, Run: func(c *fw.Ctx) { runC15HTTP(c, c.ID, proto, qe[0], qe[1]) }})
 					cases = append(cases, fw.Case{ID: fmt.Sprintf("C15/http-failing/%s/q%d-e%d", proto, qe[0], qe[1]), Bubble: true, Run: func(c *fw.Ctx) { runC15HTTPFail(c, c.ID, proto, qe[0], qe[1], true) }})
+					cases = append(cases, fw.Case{ID: fmt.Sprintf("C15/http-unresolvable/%s/q%d-e%d", proto, qe[0], qe[1]), Run: func(c *fw.Ctx) { runC15HTTPUnresolvable(c, c.ID, proto, qe[0], qe[1]) }})
 				}
 			}
 			return cases
@@ -489,6 +490,67 @@ func roleKind(r string) string {
 		return r[:3]
 	}
 	return r
+}
+
+// flattenErr lists the leaves of an error tree built with errors.Join / fmt.Errorf("%w").
+func flattenErr(err error) []error {
+	if err == nil {
+		return nil
+	}
+	if j, ok := err.(interface{ Unwrap() []error }); ok {
+		var out []error
+		for _, e := range j.Unwrap() {
+			out = append(out, flattenErr(e)...)
+		}
+		return out
+	}
+	if inner := flattenErr(errors.Unwrap(err)); len(inner) > 1 {
+		return inner // a wrapper around a joined error
+	}
+	return []error{err}
+}
+
+// runC15HTTPUnresolvable: the target is a host name the resolver reports as non-existent (syntactically not a domain
+// name: decided locally, no network), so every one of the q+e participants fails on its own. The library call exposes
+// q+e failures; the HTTP handler, given the same request, must answer with an error status, no result document, and a
+// body in which every one of those failures can be found (with its multiplicity).
+func runC15HTTPUnresolvable(c *fw.Ctx, id, proto string, q, e2e int) {
+	resetProcessState()
+	host := fmt.Sprintf("no..such-host-%d.invalid", q*100+e2e)
+	params := traceroute.TracerouteParams{Hostname: host, Port: 33434, Protocol: proto, MinTTL: 1, MaxTTL: 4, Timeout: 60 * time.Millisecond, TracerouteQueries: q, E2eQueries: e2e}
+	res, lerr := traceroute.NewTraceroute().RunTraceroute(context.Background(), params)
+	leaves := flattenErr(lerr)
+	c.Nontrivial(fmt.Sprintf("http-unresolvable/%s/q%d-e%d", proto, q, e2e))
+	if lerr == nil || res != nil {
+		c.Violate("C15", "failure-masked/unresolvable", fmt.Sprintf("%s: RunTraceroute for the non-existent host %q returned result=%v err=%v", id, host, res != nil, lerr), nil)
+		return
+	}
+	if len(leaves) != q+e2e {
+		c.Violate("C15", "failure-not-exposed/unresolvable", fmt.Sprintf("%s: %d participants cannot resolve %q but the error exposes %d failures: %v", id, q+e2e, host, len(leaves), lerr), nil)
+		return
+	}
+	qv := url.Values{"target": {host}, "protocol": {proto}, "port": {"33434"}, "max-ttl": {"4"}, "timeout": {"60"},
+		"traceroute-queries": {fmt.Sprint(q)}, "e2e-queries": {fmt.Sprint(e2e)}}
+	rec := httptest.NewRecorder()
+	server.NewServer().TracerouteHandler(rec, httptest.NewRequest("GET", "/traceroute?"+qv.Encode(), nil))
+	body := rec.Body.String()
+	c.Count("http_requests", 1)
+	if rec.Code >= 200 && rec.Code < 300 {
+		c.Violate("C15", "http-failure-masked", fmt.Sprintf("%s: every participant failed but the handler answered %d (body: %.120s)", id, rec.Code, body), nil)
+		return
+	}
+	norm := func(s string) string { return strings.NewReplacer("\\", "", "\"", "").Replace(s) }
+	nb := norm(body)
+	want := map[string]int{}
+	for _, l := range leaves {
+		want[norm(l.Error())]++
+	}
+	for text, n := range want {
+		if got := strings.Count(nb, text); got < n {
+			c.Violate("C15", "http-failure-not-exposed", fmt.Sprintf("%s: the library call exposes %d failures reading %q; the HTTP answer (status %d) shows %d of them: %.300s", id, n, text, rec.Code, got, body), nil)
+			return
+		}
+	}
 }
 
 func runC15HTTP(c *fw.Ctx, id, proto string, q, e2e int) { runC15HTTPFail(c, id, proto, q, e2e, false) }
